@@ -766,6 +766,7 @@ func runC12(c *Ctx) {
 	ruleWaitGroupAdd(c, p, "C12.wg")
 	ruleNoStrayGoroutine(c, p, r, "C12.no-stray-goroutine")
 	ruleChannelHandoff(c, p, r, "C12.handoff")
+	rulePoolCtorShared(c, p, "C12.ctor-shared")
 
 	// ---- C12.globals
 	rule = "C12.globals"
@@ -1011,5 +1012,67 @@ func ruleChannelHandoff(c *Ctx, p *core.Program, r *doRoles, rule string) {
 		}
 	}
 	c.R.Count("reference values sent between the goroutines of Do", n)
+	c.R.Floor(rule, cfg, n, 1)
+}
+
+// rulePoolCtorShared (C12): what puddle's concurrent constructor calls share is safe to share.
+func rulePoolCtorShared(c *Ctx, p *core.Program, rule string) {
+	c.R.Rule(rule, "puddle runs the pool's resource constructor (the closure of package chpool that calls ch.Dial) in a goroutine of its own for every acquisition that has to dial, so several run at once: inside it and the chpool functions it calls, a method is invoked on a value held in a field of chpool.Pool only when that value's type comes from a package whose types are documented as safe for concurrent use (sync, sync/atomic, puddle, zap, context, time, the ch.Dialer interface) - a *math/rand.Rand, a map or a buffer shared through the pool races between two dials")
+	cfg := p.Cfg.Name
+	safePkg := func(t types.Type) bool {
+		n := core.NamedOf(t)
+		if n == nil || n.Obj().Pkg() == nil {
+			return true
+		}
+		switch path := n.Obj().Pkg().Path(); {
+		case path == "sync", path == "sync/atomic", path == "context", path == "time", path == "net":
+			return true
+		case strings.Contains(path, "jackc/puddle"), strings.Contains(path, "go.uber.org/zap"), strings.Contains(path, "go.opentelemetry.io"):
+			return true
+		case path == core.PkgCh, path == core.PkgPool:
+			return true
+		}
+		return false
+	}
+	n := 0
+	for _, ctor := range p.Funcs() {
+		if pkgOf(ctor) == nil || pkgOf(ctor).Path() != core.PkgPool || ctor.Blocks == nil || ctor.Parent() == nil {
+			continue
+		}
+		if len(core.FindCalls(ctor, func(f *types.Func) bool { return core.IsFunc(f, core.PkgCh, "Dial") })) == 0 {
+			continue
+		}
+		bad := false
+		nCalls := 0
+		for fn := range core.StaticReach(ctor, 2) {
+			if fn.Blocks == nil || pkgOf(fn) == nil || pkgOf(fn).Path() != core.PkgPool {
+				continue
+			}
+			for _, call := range core.Calls(fn) {
+				cc := call.Common()
+				var recv ssa.Value
+				if cc.IsInvoke() {
+					recv = cc.Value
+				} else if f := core.CalleeFunc(call); f != nil {
+					if sig, ok := f.Type().(*types.Signature); ok && sig.Recv() != nil && len(cc.Args) > 0 {
+						recv = cc.Args[0]
+					}
+				}
+				if recv == nil || !strings.HasPrefix(core.FieldOrigin(recv, 0), "Pool.") {
+					continue
+				}
+				nCalls++
+				if !safePkg(recv.Type()) {
+					bad = true
+					c.R.Bad(rule, core.CallKey(fn, call), cfg, p.Pos(call.Pos()), sprintf("the constructor (run concurrently by puddle) calls a method on %s, a %s shared through the pool: its type is not safe for concurrent use", core.FieldOrigin(recv, 0), recv.Type()))
+				}
+			}
+		}
+		n++
+		if !bad {
+			c.R.Ok(rule, core.FuncName(ctor), cfg, p.Pos(ctor.Pos()), sprintf("%d method calls on pool-held values, all on concurrency-safe types", nCalls))
+		}
+	}
+	c.R.Count("pool resource constructors", n)
 	c.R.Floor(rule, cfg, n, 1)
 }
